@@ -14,6 +14,7 @@
 (*   [t |-> "vec", l |-> Seq(int Val)]  [t |-> "bytes", l |-> Seq(int Val)]  *)
 (*   [t |-> "inst", nm |-> struct name, l |-> Seq(Val)]                    *)
 (*   [t |-> "fn", id |-> index into st.clos]   [t |-> "bfn", nm |-> name]  *)
+(*   [t |-> "ctor", nm, n] struct constructor  [t |-> "fld", nm, ix] field  *)
 (* State of a session: [envs, out, clos]; envs is a growing sequence of    *)
 (* scopes [p |-> parent id (0 = none), vs |-> Seq([x, v])] (a tree:        *)
 (* closures keep their defining scope alive), envs[1] is the global scope. *)
@@ -78,7 +79,7 @@ ProjSeq(xs, i, acc) == IF i > Len(xs) \/ Len(acc) < 0 THEN acc ELSE ProjSeq(xs, 
 RECURSIVE ProjDict(_, _, _)
 ProjDict(xs, i, acc) == IF i > Len(xs) \/ Len(acc) < 0 THEN acc
                         ELSE ProjDict(xs, i + 1, Append(acc, [k |-> xs[i].k, v |-> Proj(xs[i].v)]))
-Proj(v) == CASE v.t \in {"fn", "bfn"} -> [t |-> "fn"]
+Proj(v) == CASE v.t \in {"fn", "bfn", "ctor", "fld"} -> [t |-> "fn"]
              [] v.t = "list" -> VList(ProjSeq(v.l, 1, <<>>))
              [] v.t = "inst" -> [t |-> "inst", nm |-> v.nm, l |-> ProjSeq(v.l, 1, <<>>)]
              [] v.t = "dict" -> VDict(ProjDict(v.d, 1, <<>>), v.hd, IF v.hd THEN Proj(v.df) ELSE Null)
@@ -125,9 +126,11 @@ GetIdx(c, ix) ==
             LET p == PyIdx(Len(c.l), ix.i)
             IN IF p = 0 THEN [ok |-> FALSE, v |-> Null]
                ELSE [ok |-> TRUE, v |-> c.l[p]]
-      [] c.t = "inst" /\ ix.t = "int" ->
-            LET p == PyIdx(Len(c.l), ix.i)
-            IN IF p = 0 THEN [ok |-> FALSE, v |-> Null] ELSE [ok |-> TRUE, v |-> c.l[p]]
+      [] c.t = "inst" /\ ix.t = "fld" ->
+            IF ix.nm = c.nm THEN [ok |-> TRUE, v |-> c.l[ix.ix]] ELSE [ok |-> FALSE, v |-> Null]
+      [] c.t = "str" /\ ix.t = "int" ->
+            LET p == PyIdx(Len(c.s), ix.i)
+            IN IF p = 0 THEN [ok |-> FALSE, v |-> Null] ELSE [ok |-> TRUE, v |-> VStr(SubSeq(c.s, p, p))]
       [] c.t = "dict" /\ ix.t = "int" ->
             LET p == DictFind(c.d, ix.i, 1)
             IN IF p > 0 THEN [ok |-> TRUE, v |-> c.d[p].v]
@@ -138,10 +141,11 @@ GetIdx(c, ix) ==
 ElemOk(c, w) == c.t = "list" \/ c.t = "inst" \/ (w.t = "int" /\ (c.t = "vec" \/ (c.t = "bytes" /\ w.i >= 0 /\ w.i < 256)))
 \* functional update c[ix] := w on one level (used by x{k = v}): [ok, v]
 SetIdx(c, ix, w) ==
-    CASE c.t \in {"list", "vec", "bytes", "inst"} /\ ix.t = "int" ->
+    CASE c.t \in {"list", "vec", "bytes"} /\ ix.t = "int" ->
             LET p == PyIdx(Len(c.l), ix.i)
             IN IF p = 0 \/ ~ElemOk(c, w) THEN [ok |-> FALSE, v |-> c] ELSE [ok |-> TRUE, v |-> [c EXCEPT !.l[p] = w]]
       [] c.t = "dict" /\ ix.t = "int" -> [ok |-> TRUE, v |-> [c EXCEPT !.d = DictPut(c.d, ix.i, w)]]
+      [] c.t = "inst" /\ ix.t = "fld" /\ ix.nm = c.nm -> [ok |-> TRUE, v |-> [c EXCEPT !.l[ix.ix] = w]]
       [] OTHER -> [ok |-> FALSE, v |-> c]
 
 \* read along a path of plain indices (a dict default is READ, not stored)
@@ -184,6 +188,17 @@ SetP(c, path, i, w, drop, every) ==
                         IN IF p = 0 THEN fail
                            ELSE LET inner == SetP(c.d[p].v, path, i + 1, w, drop, every)
                                 IN [ok |-> inner.ok, v |-> [c EXCEPT !.d[p].v = inner.v]]
+              [] ix.t = "fld" /\ c.t = "inst" ->
+                   IF ix.nm # c.nm THEN fail
+                   ELSE LET inner == SetP(c.l[ix.ix], path, i + 1, w, drop, every)
+                        IN [ok |-> inner.ok, v |-> [c EXCEPT !.l[ix.ix] = inner.v]]
+              [] ix.t = "int" /\ c.t = "str" /\ last ->
+                   \* one byte of a string is replaced by a one-byte string; a string slot cannot hold null
+                   IF drop THEN [ok |-> TRUE, v |-> c]
+                   ELSE LET p == PyIdx(Len(c.s), ix.i)
+                        IN IF w.t # "str" THEN fail
+                           ELSE IF Len(w.s) # 1 \/ p = 0 THEN fail
+                           ELSE [ok |-> TRUE, v |-> VStr(SubSeq(c.s, 1, p - 1) \o w.s \o SubSeq(c.s, p + 1, Len(c.s)))]
               [] ix.t = "int" /\ c.t \in {"vec", "bytes"} /\ last ->
                    IF drop THEN [ok |-> TRUE, v |-> c]
                    ELSE LET p == PyIdx(Len(c.l), ix.i)
@@ -222,7 +237,11 @@ ModP(c, path, i, f) ==
     IF i > Len(path) THEN Leaf(f, c)
     ELSE LET ix == path[i]
              fail == [ok |-> FALSE, v |-> c, r |-> Null]
-         IN IF ix.t # "int" THEN fail
+         IN IF ix.t = "fld" /\ c.t = "inst"
+            THEN IF ix.nm # c.nm THEN fail
+                 ELSE LET inner == ModP(c.l[ix.ix], path, i + 1, f)
+                      IN [ok |-> inner.ok, v |-> [c EXCEPT !.l[ix.ix] = inner.v], r |-> inner.r]
+            ELSE IF ix.t # "int" THEN fail
             ELSE IF c.t = "list"
             THEN LET p == PyIdx(Len(c.l), ix.i)
                  IN IF p = 0 THEN fail
@@ -263,6 +282,7 @@ RevSeq(xs, i, acc) == IF i = 0 \/ Len(acc) < 0 THEN acc ELSE RevSeq(xs, i - 1, A
 AsList(v) == CASE v.t = "list" -> [ok |-> TRUE, l |-> v.l]
                [] v.t \in {"vec", "bytes"} -> [ok |-> TRUE, l |-> v.l]
                [] v.t = "dict" -> [ok |-> TRUE, l |-> [i \in 1..Len(v.d) |-> VInt(v.d[i].k)]]
+               [] v.t = "str" -> [ok |-> TRUE, l |-> [i \in 1..Len(v.s) |-> VStr(SubSeq(v.s, i, i))]]
                [] OTHER -> [ok |-> FALSE, l |-> <<>>]
 
 \* a pure binary builtin: [ok, v]
@@ -292,7 +312,7 @@ BinOp(op, a, b) ==
                              ELSE IF a.t \in {"vec", "bytes"} /\ ElemOk(a, b) THEN good([a EXCEPT !.l = Append(a.l, b)]) ELSE bad
          [] op = ".+" -> IF b.t = "list" THEN good(VList(<<a>> \o b.l)) ELSE bad
          [] op = "++" -> IF a.t = b.t /\ a.t \in {"list", "vec", "bytes"} THEN good([a EXCEPT !.l = a.l \o b.l])
-                         ELSE IF a.t = "str" /\ b.t = "str" THEN good(VStr(a.s \o b.s)) ELSE bad
+                         ELSE bad
          [] op = "til" -> IF ii /\ b.i - a.i < 64 THEN good(VList(Range(a.i, b.i, <<>>))) ELSE bad
          [] op = "to" -> IF ii /\ b.i - a.i < 64 THEN good(VList(Range(a.i, b.i + 1, <<>>))) ELSE bad
          [] OTHER -> bad
@@ -342,6 +362,7 @@ RECURSIVE Decls(_)
 RECURSIVE DeclsSeq(_, _, _)
 DeclsSeq(es, i, acc) == IF i > Len(es) \/ Len(acc) < 0 THEN acc ELSE DeclsSeq(es, i + 1, acc \o Decls(es[i]))
 Decls(e) == CASE e.n = "decl" -> LvNames(e.x)
+              [] e.n = "struct" -> <<e.nm>> \o e.fs
               [] e.n = "seq" -> DeclsSeq(e.es, 1, <<>>)
               [] e.n = "if" -> Decls(e.a) \o (IF e.b.n = "none" THEN <<>> ELSE Decls(e.b))
               [] e.n = "try" -> Decls(e.b)
@@ -388,7 +409,7 @@ FrzParams(st, env, ps, i, b, acc) ==
          IN IF ~f.ok THEN [ok |-> FALSE, ps |-> acc] ELSE FrzParams(st, env, ps, i + 1, b, Append(acc, [ps[i] EXCEPT !.d = f.e]))
 
 Frz(st, env, e, b) ==
-    CASE e.n \in {"lit", "frozen", "cont", "none"} -> FzOk(e)
+    CASE e.n \in {"lit", "frozen", "cont", "none", "struct"} -> FzOk(e)
       [] e.n = "id" -> IF InSeq(e.x, b) THEN FzOk(e)
                        ELSE LET r == ReadVar(st, env, e.x) IN IF r.ok THEN FzOk([n |-> "frozen", v |-> r.v]) ELSE FzFail
       [] e.n \in {"list", "vec"} -> LET f == FrzList(st, env, e.es, 1, b, <<>>, FALSE) IN IF f.ok THEN FzOk([e EXCEPT !.es = f.es]) ELSE FzFail
@@ -534,6 +555,7 @@ CallFn(st, env, f, args) ==
            [] f.nm = "len" /\ Len(args) = 1 ->
                  (CASE args[1].t \in {"list", "vec", "bytes"} -> RVal(st, VInt(Len(args[1].l)))
                     [] args[1].t = "dict" -> RVal(st, VInt(Len(args[1].d)))
+                    [] args[1].t = "str" -> RVal(st, VInt(Len(args[1].s)))
                     [] OTHER -> RThr(st, "type"))
            [] f.nm = "id" /\ Len(args) = 1 -> RVal(st, args[1])
            [] f.nm = "throw'" /\ Len(args) = 1 -> RThr(st, "throw'")
@@ -554,6 +576,9 @@ CallFn(st, env, f, args) ==
                            [] f.nm = "min" -> IF xs.l = <<>> \/ ~AllInts(xs.l) THEN RThr(st, "empty")
                                               ELSE RVal(st, Extremum(xs.l, 2, xs.l[1], FALSE)))
            [] OTHER -> RThr(st, "arguments")
+    ELSE IF f.t = "ctor" THEN (IF Len(args) = f.n THEN RVal(st, [t |-> "inst", nm |-> f.nm, l |-> args]) ELSE RThr(st, "arguments"))
+    ELSE IF f.t = "fld" THEN (IF Len(args) = 1 /\ args[1].t = "inst" /\ args[1].nm = f.nm THEN RVal(st, args[1].l[f.ix])
+                              ELSE RThr(st, "arguments"))
     ELSE RThr(st, "not callable")
 
 \* iteration items of a value: elements, dict keys; pairs = TRUE gives [index / key, value] pairs
@@ -563,6 +588,8 @@ Items(v, pairs) ==
             [ok |-> TRUE, l |-> IF pairs THEN [i \in 1..Len(v.l) |-> VList(<<VInt(i - 1), v.l[i]>>)] ELSE v.l]
       [] v.t = "dict" -> [ok |-> TRUE, l |-> IF pairs THEN [i \in 1..Len(v.d) |-> VList(<<VInt(v.d[i].k), v.d[i].v>>)]
                                              ELSE [i \in 1..Len(v.d) |-> VInt(v.d[i].k)]]
+      [] v.t = "str" -> [ok |-> TRUE, l |-> IF pairs THEN [i \in 1..Len(v.s) |-> VList(<<VInt(i - 1), VStr(SubSeq(v.s, i, i))>>)]
+                                            ELSE [i \in 1..Len(v.s) |-> VStr(SubSeq(v.s, i, i))]]
       [] OTHER -> [ok |-> FALSE, l |-> <<>>]
 
 (* One `for` statement: clauses cl[ci..], then the body callback.  acc collects the yielded  *)
@@ -664,6 +691,10 @@ ModEvery(c, path, i, op, w) ==
                    IN IF p = 0 THEN fail
                       ELSE LET inner == ModEvery(c.l[p], path, i + 1, op, w)
                            IN [ok |-> inner.ok, v |-> [c EXCEPT !.l[p] = inner.v]]
+              [] ix.t = "fld" /\ c.t = "inst" ->
+                   IF ix.nm # c.nm THEN fail
+                   ELSE LET inner == ModEvery(c.l[ix.ix], path, i + 1, op, w)
+                        IN [ok |-> inner.ok, v |-> [c EXCEPT !.l[ix.ix] = inner.v]]
               [] ix.t = "int" /\ c.t = "dict" ->
                    LET p == DictFind(c.d, ix.i, 1)
                    IN IF p = 0 /\ ~c.hd THEN fail
@@ -682,6 +713,12 @@ ModEach(c, path, i, op, w, j, hi) ==
 Ev(st, env, e) ==
     CASE e.n = "lit" -> RVal(st, e.v)
       [] e.n = "frozen" -> RVal(st, e.v)
+      [] e.n = "struct" ->
+            \* declares the constructor and one accessor function per field in the current scope
+            LET names == <<e.nm>> \o e.fs
+                vals == <<[t |-> "ctor", nm |-> e.nm, n |-> Len(e.fs)]>> \o [q \in 1..Len(e.fs) |-> [t |-> "fld", nm |-> e.nm, ix |-> q]]
+                b == BindAll(st, env, [q \in 1..Len(names) |-> [x |-> names[q]]], vals, 1)
+            IN IF b.ok THEN RVal(b.st, Null) ELSE RThr(st, "declare")
       [] e.n = "freeze" -> LET f == Frz(st, env, e.e, <<>>) IN IF f.ok THEN Ev(st, env, f.e) ELSE RThr(st, "freeze")
       [] e.n = "id" -> LET r == ReadVar(st, env, e.x) IN IF r.ok THEN RVal(st, r.v) ELSE RThr(st, "name")
       [] e.n = "list" -> LET r == EvList(st, env, e.es, 1, <<>>) IN IF IsVal(r) THEN RVal(r.st, VList(r.v)) ELSE r
@@ -709,6 +746,11 @@ Ev(st, env, e) ==
             IN IF ~IsVal(rc) THEN rc
                ELSE LET rx == EvIxs(rc.st, env, <<[n |-> "slice", lo |-> e.lo, hi |-> e.hi]>>, 1, <<>>)
                     IN IF ~IsVal(rx) THEN rx
+                       ELSE IF rc.v.t = "str" /\ rx.v[1].lo.t \in {"null", "int"} /\ rx.v[1].hi.t \in {"null", "int"}
+                            THEN LET n == Len(rc.v.s)
+                                     lo == SliceLo(n, rx.v[1].lo)
+                                     hi == SliceHi(n, rx.v[1].lo, rx.v[1].hi)
+                                 IN RVal(rx.st, VStr(SubSeq(rc.v.s, lo + 1, hi)))
                        ELSE IF ~IsSeqLike(rc.v) \/ (rx.v[1].lo.t \notin {"null", "int"}) \/ (rx.v[1].hi.t \notin {"null", "int"})
                             THEN RThr(rx.st, "type")
                             ELSE LET n == Len(rc.v.l)
@@ -861,7 +903,7 @@ Ev(st, env, e) ==
                     IN IF ~IsVal(rk) THEN rk
                        ELSE LET rv == Ev(rk.st, env, e.v)
                             IN IF ~IsVal(rv) THEN rv
-                               ELSE LET w == SetIdx(rc.v, rk.v, rv.v)
+                               ELSE LET w == SetP(rc.v, <<rk.v>>, 1, rv.v, FALSE, FALSE)      \* set_index on a copy
                                     IN IF w.ok THEN RVal(rv.st, w.v) ELSE RThr(rv.st, "index")
 
 (* --------------------- one REPL statement of a session ------------------ *)
